@@ -226,6 +226,19 @@ fn parse_v_html_directive(jsx_attr: &JSXAttr) -> Directive {
     Directive::Html(expr)
 }
 
+/// Whether `(expr) = $event` is an assignment; parentheses and type wrappers are looked through.
+fn is_assignable(expr: &Expr) -> bool {
+    match expr {
+        Expr::Ident(..) | Expr::Member(..) | Expr::SuperProp(..) => true,
+        Expr::Paren(ParenExpr { expr, .. })
+        | Expr::TsAs(TsAsExpr { expr, .. })
+        | Expr::TsNonNull(TsNonNullExpr { expr, .. })
+        | Expr::TsSatisfies(TsSatisfiesExpr { expr, .. })
+        | Expr::TsTypeAssertion(TsTypeAssertion { expr, .. }) => is_assignable(expr),
+        _ => false,
+    }
+}
+
 fn parse_v_model_directive(
     jsx_attr: &JSXAttr,
     is_component: bool,
@@ -294,17 +307,7 @@ fn parse_v_model_directive(
         value = attr_value.clone();
     }
 
-    if !matches!(
-        value,
-        Expr::Ident(..)
-            | Expr::Member(..)
-            | Expr::SuperProp(..)
-            | Expr::Paren(..)
-            | Expr::TsAs(..)
-            | Expr::TsNonNull(..)
-            | Expr::TsSatisfies(..)
-            | Expr::TsTypeAssertion(..)
-    ) {
+    if !is_assignable(&value) {
         HANDLER.with(|handler| {
             handler.span_err(
                 jsx_attr.span,
